@@ -97,7 +97,12 @@ def num(x):
         return Fraction(xf)
     if isinstance(x, Fraction):
         return int(x) if x.denominator == 1 else x
-    return x
+    raise MalformedOutput(f"a number was expected, got {type(x).__name__}: {repr(x)[:80]}")
+
+
+class MalformedOutput(Exception):
+    """The library returned something that is not of the documented shape (e.g. a list of arrays where a list of sums is
+    documented).  Raised by the normalisation layer inside `guarded`, so it is reported as the outcome of the call."""
 
 
 def jsonable(x):
@@ -145,11 +150,11 @@ def int_names(values, nseed):
     """Distinct integer names chosen to mislead code that uses the name where it should use the value."""
     n = len(values)
     scheme = nseed % 3
-    if scheme == 0:       # reverse index: small ints in the range of small values
-        return [n - j for j in range(n)]
-    if scheme == 1:       # strictly anti-ordered with the values
+    if scheme == 0:       # reverse index: small ints in the range of small values; the last item is named 0 (a falsy name)
+        return [n - 1 - j for j in range(n)]
+    if scheme == 1:       # strictly anti-ordered with the values; a largest item given first is named 0
         m = max(values) if values else 0
-        return [(m - values[j]) * n + j + 1 for j in range(n)]
+        return [(m - values[j]) * n + j for j in range(n)]
     # a rotation of the values, made distinct
     return [values[(j + 1) % n] * n + j for j in range(n)]
 
@@ -158,10 +163,14 @@ def str_names(values, nseed):
     n = len(values)
     scheme = nseed % 3
     if scheme == 0:
-        return [f"a{j:03d}" for j in range(n)]
-    if scheme == 1:       # lexicographic order is the reverse of input order
-        return [f"z{n - j:03d}" for j in range(n)]
-    return [f"{(j * 7 + 3) % max(n, 1):03d}x{j}" for j in range(n)]
+        names = [f"a{j:03d}" for j in range(n)]
+    elif scheme == 1:       # lexicographic order is the reverse of input order
+        names = [f"z{n - j:03d}" for j in range(n)]
+    else:
+        names = [f"{(j * 7 + 3) % max(n, 1):03d}x{j}" for j in range(n)]
+    if nseed >= 4 and n:    # one item is named by the empty string (a legitimate, falsy name)
+        names[nseed % n] = ""
+    return names
 
 
 def present(values, pres="list", nseed=0, den=1):
@@ -194,6 +203,8 @@ def present(values, pres="list", nseed=0, den=1):
 def norm_name(x):
     if isinstance(x, str):
         return x
+    if isinstance(x, (list, tuple, dict, set, np.ndarray)):
+        raise MalformedOutput(f"an item was expected, got {type(x).__name__}: {repr(x)[:80]}")
     return num(x)
 
 
@@ -242,6 +253,10 @@ def guarded(fn):
 
 
 def normalise_output(outputtype, raw):
+    if outputtype in ("Partition", "Sums", "SortedSums") and not isinstance(raw, (list, tuple, np.ndarray)):
+        raise MalformedOutput(f"{outputtype}: a list was expected, got {type(raw).__name__}")
+    if outputtype in ("PartitionAndSumsTuple", "ExtremeSums") and not (isinstance(raw, (list, tuple)) and len(raw) == 2):
+        raise MalformedOutput(f"{outputtype}: a pair was expected, got {repr(raw)[:80]}")
     if outputtype == "Partition":
         return [[norm_name(x) for x in b] for b in raw]
     if outputtype == "PartitionAndSumsTuple":
